@@ -329,3 +329,48 @@ theorem symindexLayout_panic (m f i s : Nat)
   · simp only [h1, if_false]; rfl
 
 end C08T
+
+/-! ### the whole `/asm/v1` request on the tied model -/
+namespace C08T
+
+theorem readRange_ne_panic (img : Asm.Image) (rel size : Nat) : Asm.readRange img rel size ≠ .panic := by
+  unfold Asm.readRange
+  simp only
+  split
+  · simp
+  · split
+    · simp
+    · split
+      · simp
+      · split <;> simp
+
+theorem adjust_bounds (a : Asm.Arch) : 1 ≤ a.adjust ∧ a.adjust ≤ 4 := by
+  cases a <;> simp [Asm.Arch.adjust]
+
+theorem query_total (arch : Asm.Arch) (img : Asm.Image) (sym : Option Asm.Sym) (req : Asm.Req) (dec : Nat → Asm.Dec)
+    (hor : ∀ fo n, (Asm.plan arch img sym req).2.2 = .ok fo n → Asm.OracleOK n dec ∧ n + 4 ≤ Asm.u32max) :
+    Asm.query arch img sym req dec ≠ .panic ∧ Asm.query arch img sym req dec ≠ .nofuel := by
+  unfold Asm.query
+  have hrd := readRange_ne_panic img (Asm.plan arch img sym req).2.1
+    (Asm.readSize (Asm.plan arch img sym req).1)
+  cases hp : (Asm.plan arch img sym req).2.2 with
+  | panic =>
+    exfalso
+    apply hrd
+    simpa [Asm.plan] using hp
+  | notFound => simp [hp]
+  | range => simp [hp]
+  | parse => simp [hp]
+  | ok fo n =>
+    obtain ⟨ho, hn⟩ := hor fo n hp
+    simp only [hp]
+    split
+    · simp
+    · have hb := adjust_bounds arch
+      obtain ⟨items, f, hd, _⟩ := loop_done arch.adjust (Asm.plan arch img sym req).1 n dec ho hb.1
+        (by omega) ((Asm.plan arch img sym req).1 + 1) 0 (Nat.zero_le _) (by omega)
+      unfold Asm.decode
+      rw [hd]
+      simp
+
+end C08T
